@@ -50,6 +50,17 @@ def freqSpec (fftK : Fft α) (ir : IR α) (sw : Bool) (fft : Nat) (ps : List Nat
   tab nOut (fun j => (List.range nb).flatMap (fun b => ps.zipIdx.map (fun pq =>
     freqAt fftK ir sw fft B nIn xf j b pq.1 pq.2)))
 
+/-- the same MIMO output row `j` addressed by the flat position `m = b·B + q` (`B = ps.length`):
+    `Σ_a FFT(dense taps (j,a) of sample m / B)[ps[m % B]] · x[a][m]` (`(a,j)` in the switched direction) -/
+def freqAtFlat (fftK : Fft α) (ir : IR α) (sw : Bool) (fft : Nat) (ps : List Nat) (nIn : Nat)
+    (xf : Nat → Nat → α) (j m : Nat) : α :=
+  ((List.range nIn).map (fun a =>
+    fftK (if sw then ir.denseAt a j (m / ps.length) else ir.denseAt j a (m / ps.length)) fft
+      (match ps[m % ps.length]? with | some p => p | none => 0) * xf a m)).sum
+
+/-- `√pathloss · v` when a path loss is set, `v` otherwise (what `SuChannel` reports for a tap value `v`) -/
+def plMul (pl : Option α) (v : α) : α := match pl with | none => v | some s => s * v
+
 /-- the dense tap vector in closed form: entry `l` is the value of the (last) tap whose
     delay is `l`, zero when there is none -/
 def denseSpec (delays : List Nat) (v : List α) (len : Nat) : List α :=
